@@ -275,6 +275,11 @@ impl ControlFlowGraph {
 
                 // remove the block we just merged
                 self.graph.remove_vertex(successor_index)?;
+
+                // the merged block now ends where its successor ended
+                if self.exit == Some(successor_index) {
+                    self.exit = Some(merge_index);
+                }
             }
         }
         Ok(())
